@@ -87,10 +87,12 @@ CLAIMED = {
              "included) on every section graph of up to 4 sections (existence, inherit target later/self/missing, option presence) against "
              "the documented child-over-parent rule and error cases; the real _get_vela_config with symbolic system ports, memory-mode areas "
              "in child and parent, and a symbolic arena cache size in child/parent/CLI (defaults, CLI override, Sram->OnChipFlash remap, every "
-             "validation error); missing sections vs internal-default; and the value main() hands over when --arena-cache-size is absent, "
-             "extracted from main()'s AST on every run.",
+             "validation error); missing sections vs internal-default; the real vela.main() driven up to the construction of the architecture "
+             "object for all combinations of --config kinds / --system-config / --memory-mode with the file system answered by a symbolic Boolean "
+             "(Dir/file.ini resolved to the bundled directory and that path handed on, unreadable file rejected, selections never replaced); and "
+             "the value main() hands over when --arena-cache-size is absent, extracted from main()'s AST on every run.",
         note="Trusted: z3, symx proxies, the ConfigParser stand-in (has_section/has_option/get), OPTIONS.md as the source of the rules. "
-             "Outside: Dir/file.ini path lookup (closure in main() over the file system), INI parsing, inherit cycles of length >= 2. "
+             "Outside: the file system itself and INI parsing, inherit cycles of length >= 2. "
              "One recorded finding (CLI default shadows the file) is reported as KNOWN-FINDING.",
         technique="dynamic symbolic execution of the real Python functions over z3 proxies (symx), all feasible paths within the bound; AST extraction of the CLI binding; counterexample replay",
         design="DESIGN.md §3 C18"),
